@@ -118,7 +118,7 @@ def replay(pyhf, backend, precision, chunk, seed, hypo_every=1, float_probes=0):
         if len(out["drift"]) < 10:
             out["drift"].append(("Asymptotics", detail))
 
-    def cmp_p(name, got, arg, ctx, tags):
+    def cmp_p(route, name, got, arg, ctx, tags):
         """one p-value against Phi(exact argument); returns False on a reported violation"""
         if abs(arg) >= TAIL:
             out["beyond_tail"] += 1
@@ -129,19 +129,19 @@ def replay(pyhf, backend, precision, chunk, seed, hypo_every=1, float_probes=0):
         if rel <= RTOL:
             out["maxrel"] = max(out["maxrel"], rel)
             return True
-        add(f"{name} differs from the arXiv:1007.1727 value Phi({float(arg):.6g})",
+        add(f"{route}: {name} differs from the arXiv:1007.1727 value Phi({float(arg):.6g})",
             dict(ctx, quantity=name, got=got, expected=float(e), argument=str(arg), rel=rel), tags + [name])
         return False
 
     def cmp_triple(route, sb, b, s, asb, ab, ctx, tags):
         """CLsb, CLb, CLs against the definition + the ordering consequences"""
-        ok = cmp_p("CLsb", sb, asb, ctx, tags) & cmp_p("CLb", b, ab, ctx, tags)
+        ok = cmp_p(route, "CLsb", sb, asb, ctx, tags) & cmp_p(route, "CLb", b, ab, ctx, tags)
         if s is not None and -TAIL < asb and -TAIL < ab < TAIL:
             e = leaf.phi(asb) / leaf.phi(ab)
             rel = _rel(s, e)
             out["compared"] += 1
             if rel > RTOL:
-                add("CLs is not the ratio CLsb/CLb of the arXiv:1007.1727 values",
+                add(f"{route}: CLs is not the ratio CLsb/CLb of the arXiv:1007.1727 values",
                     dict(ctx, quantity="CLs", got=s, expected=float(e), rel=rel), tags + ["CLs"])
                 ok = False
             else:
@@ -149,7 +149,7 @@ def replay(pyhf, backend, precision, chunk, seed, hypo_every=1, float_probes=0):
         if ok and -TAIL < asb and -TAIL < ab:
             eps = 1e-12
             if not (0.0 <= sb <= b * (1 + eps) and b <= 1.0 + eps and (s is None or 0.0 <= s <= 1.0 + eps)):
-                add("ordering 0 <= CLsb <= CLb <= 1, 0 <= CLs <= 1 broken", dict(ctx, CLsb=sb, CLb=b, CLs=s), tags + ["ordering"])
+                add(f"{route}: ordering 0 <= CLsb <= CLb <= 1, 0 <= CLs <= 1 broken", dict(ctx, CLsb=sb, CLb=b, CLs=s), tags + ["ordering"])
                 ok = False
         return ok
 
@@ -209,6 +209,7 @@ def replay(pyhf, backend, precision, chunk, seed, hypo_every=1, float_probes=0):
         out["by_kind"][kind] = out["by_kind"].get(kind, 0) + 1
         out["branch2"] += bool(case["branch2"])
         out["seam"] += case["cmp"] == 0
+        out["capped"] += sum(bool(d["capped"]) for d in case["def"]["band"])
         if case["branch2"] or case["cmp"] == 0 or base == "clipped_normal":
             out["nontrivial"] += 1
         try:
@@ -232,7 +233,6 @@ def replay(pyhf, backend, precision, chunk, seed, hypo_every=1, float_probes=0):
         okb = True
         for i in range(5):
             bsb, bb = frac(dband[i]["sb"]), frac(dband[i]["b"])
-            out["capped"] += bool(dband[i]["capped"])
             btags = tags + ["route:expected_pvalues", f"N:{dband[i]['n']}"] + (["capped"] if dband[i]["capped"] else [])
             okb &= cmp_triple("band", res["band"][0][i], res["band"][1][i], res["band"][2][i], bsb, bb,
                               dict(ctx, band_index=i, N=dband[i]["n"]), btags)
